@@ -1313,7 +1313,12 @@ bool BW_MidiSequencer::processEvents(bool isSeek)
         m_currentPosition.wait += t.value();
 
     if(caughLoopStart > 0 && m_loopBeginPosition.absTimePosition <= 0.0)
+    {
         m_loopBeginPosition = rowBeginPosition;
+        // Don't bake the caller's lateness at this moment into every later pass of the loop
+        m_loopBeginPosition.wait = 0.0;
+        m_loopBeginPosition.absTimePosition = 0.0;
+    }
 
     if(caughLoopStackStart > 0)
     {
